@@ -180,6 +180,8 @@ type World struct {
 	seq      int64
 	nextInst int
 
+	late sync.WaitGroup // goroutines spawned by compute functions that outlive their run
+
 	act int64 // activity counter (atomic): compute entries, writes, cleanups, stops
 
 	// statistics, protected by mu
@@ -416,6 +418,56 @@ func (c *Cell) Read(ctx context.Context, in *inst) ReadRec {
 	c.w.hold(in, tr)
 	v := atomic.LoadInt64(&c.ver)
 	return ReadRec{Cell: c.Idx, Ver: v, Res: tr.ID}
+}
+
+// premarkLocked notes, before an AddDependency that may come from an already
+// released dependant (a context without rerunner, or a goroutine outliving its
+// computation), that the resource has no monitored holder right now: thunder
+// may then legitimately release it ("after one call to addOut, n is
+// guaranteed to be eventually released"). Caller holds w.mu.
+func (w *World) premarkLocked(tr *Tracked) {
+	if tr.holds == 0 {
+		tr.everZero = true
+	}
+}
+
+// ReadPlain is a non-reactive reader: AddDependency with a context that has
+// no rerunner, on the cell's current (possibly shared and live) resource.
+func (c *Cell) ReadPlain() int64 {
+	w := c.w
+	tr := c.current()
+	w.mu.Lock()
+	w.premarkLocked(tr)
+	w.Stats["plain_reads"]++
+	if tr.holds > 0 {
+		w.Stats["plain_reads_of_held_resource"]++
+	}
+	w.logLocked("plain-read", -1, 0, fmt.Sprintf("cell=%d res=%d holds=%d", c.Idx, tr.ID, tr.holds))
+	w.mu.Unlock()
+	reactive.AddDependency(context.Background(), tr.Res, nil)
+	w.bump()
+	return atomic.LoadInt64(&c.ver)
+}
+
+// ReadLate is AddDependency from a goroutine that outlived the computation
+// in (its run has returned; the computation is superseded, failed or stopped
+// and may already be released) with that computation's context.
+func (c *Cell) ReadLate(ctx context.Context, in *inst) {
+	w := c.w
+	tr := c.current()
+	w.mu.Lock()
+	w.premarkLocked(tr)
+	w.Stats["late_reads"]++
+	if tr.holds > 0 {
+		w.Stats["late_reads_of_held_resource"]++
+	}
+	w.logLocked("late-read", in.rr, in.run, fmt.Sprintf("cell=%d res=%d holds=%d", c.Idx, tr.ID, tr.holds))
+	w.mu.Unlock()
+	reactive.AddDependency(ctx, tr.Res, nil)
+	// a token only if the computation is still monitor-alive (then it was
+	// not released when the edge was added)
+	w.hold(in, tr)
+	w.bump()
 }
 
 // Write styles.
